@@ -1,6 +1,7 @@
 package main
 
 import (
+	"bytes"
 	"bufio"
 	"encoding/hex"
 	"encoding/json"
@@ -286,7 +287,11 @@ func runCase(id int, c cpuCase, plan cpuPlan, skip int, progress func(cfg int, n
 				}
 			}
 			cfg++
-			if skip > 0 && cfg < skip {
+			if skip >= onlyCfgBase {
+				if cfg != skip-onlyCfgBase {
+					continue
+				}
+			} else if skip > 0 && cfg < skip {
 				continue
 			}
 			if skip < 0 && cfg >= -skip {
@@ -507,7 +512,13 @@ func runRange(seed int64, plan cpuPlan, lo, hi int, perCase time.Duration) map[i
 		}
 		if cfgIdx >= 0 {
 			status := strings.SplitN(why, " ", 2)
-			carried = append(carried, fmt.Sprintf("V %d %s %d %s %s cycles=0 ticks=0 regs=%s mem=0000000000000000", bad, cfgName, cfgPar, status[0], status[1], strings.TrimSuffix(strings.Repeat("0,", 32), ",")))
+			// a wall-clock stall may only mean that the machine is overloaded (the tick budget is what decides hangs
+			// deterministically): run this ONE configuration again, alone, with thirty times the time before believing it
+			if again := runSingle(seed, plan, bad, cfgIdx, 30*perCase); stalled && again != "" {
+				carried = append(carried, again)
+			} else {
+				carried = append(carried, fmt.Sprintf("V %d %s %d %s %s cycles=0 ticks=0 regs=%s mem=0000000000000000", bad, cfgName, cfgPar, status[0], status[1], strings.TrimSuffix(strings.Repeat("0,", 32), ",")))
+			}
 			// configurations before cfgIdx of this case are re-run by the next worker unless we skip them; their
 			// lines were never printed (printed at END), so re-run from 0 but drop the stalled configuration:
 			// simplest sound choice: mark it and continue with the NEXT configuration only
@@ -528,6 +539,35 @@ func runRange(seed int64, plan cpuPlan, lo, hi int, perCase time.Duration) map[i
 		}
 	}
 	return res
+}
+
+const onlyCfgBase = 1000000 // skip = onlyCfgBase + k: run configuration k only
+
+// runSingle re-runs ONE configuration of one case in a fresh worker with a long time limit; "" if it does not finish.
+func runSingle(seed int64, plan cpuPlan, id, cfg int, limit time.Duration) string {
+	self, _ := os.Executable()
+	cmd := exec.Command(self, "-cpuworker", fmt.Sprintf("%d|%d|%d|%d", seed, id, id+1, onlyCfgBase+cfg), "-plan", planString(plan), "-out", "/dev/null", "cpuworker")
+	cmd.Env = append(os.Environ(), "GOMAXPROCS=2", "GOMEMLIMIT=1500MiB")
+	var out bytes.Buffer
+	cmd.Stdout = &out
+	if err := cmd.Start(); err != nil {
+		return ""
+	}
+	done := make(chan error, 1)
+	go func() { done <- cmd.Wait() }()
+	select {
+	case <-done:
+	case <-time.After(limit):
+		cmd.Process.Kill()
+		<-done
+		return ""
+	}
+	for _, l := range strings.Split(out.String(), "\n") {
+		if strings.HasPrefix(l, "V ") {
+			return l
+		}
+	}
+	return ""
 }
 
 // runPrefix re-runs configurations [0, upto) of one case (they completed before a later one stalled).
@@ -574,7 +614,7 @@ func cpuStream(name string, plan cpuPlan) streamFn {
 			go func() {
 				defer wg.Done()
 				for j := range jobs {
-					r := runRange(seed, plan, j.lo, j.hi, 20*time.Second)
+					r := runRange(seed, plan, j.lo, j.hi, 40*time.Second)
 					mu.Lock()
 					results = append(results, r)
 					mu.Unlock()
